@@ -20,7 +20,7 @@ func (x *rx) through(e ast.Expr) []ast.Expr {
 	if !ok {
 		return []ast.Expr{e}
 	}
-	v, ok := core.ObjOf(x.info, id).(*types.Var)
+	v, ok := c07.Obj(x.info, id).(*types.Var)
 	if !ok || v.IsField() || !c07.Within(identPos(v), x.fn.Decl.Body) {
 		return []ast.Expr{e}
 	}
@@ -30,8 +30,8 @@ func (x *rx) through(e ast.Expr) []ast.Expr {
 		switch s := n.(type) {
 		case *ast.AssignStmt:
 			for i, l := range s.Lhs {
-				if core.ObjOf(x.info, l) == types.Object(v) {
-					if r := core.AssignedTo(s, i); r != nil {
+				if c07.Obj(x.info, l) == types.Object(v) {
+					if r := core.AssignedTo(s, i); r != nil && (s.Tok == token.ASSIGN || s.Tok == token.DEFINE) {
 						out = append(out, r)
 					} else {
 						opaque = true
@@ -45,7 +45,11 @@ func (x *rx) through(e ast.Expr) []ast.Expr {
 				}
 			}
 		case *ast.UnaryExpr:
-			if s.Op == token.AND && core.ObjOf(x.info, s.X) == types.Object(v) {
+			if s.Op == token.AND && c07.Obj(x.info, s.X) == types.Object(v) {
+				opaque = true
+			}
+		case *ast.IncDecStmt: // a counter: it does not stand for the expressions assigned to it
+			if c07.Obj(x.info, s.X) == types.Object(v) {
 				opaque = true
 			}
 		}
@@ -61,7 +65,7 @@ func (x *rx) through(e ast.Expr) []ast.Expr {
 // must declare its own buffer, write exactly one JSON line of a recognised struct literal into it on every path
 // and return its String(). Its literal is judged like an inline one (the parameter stands for the entry).
 func (x *rx) lineHelper(call *ast.CallExpr) bool {
-	h := x.c.FnOf(core.CalleeFunc(x.info, call))
+	h := x.c.FnOf(c07.CalleeF(x.info, call))
 	if h == nil || h.Decl.Body == nil || h.Pkg != x.fn.Pkg || h.Decl.Recv != nil {
 		return false
 	}
@@ -69,7 +73,7 @@ func (x *rx) lineHelper(call *ast.CallExpr) bool {
 	i := 0
 	for _, f := range h.Decl.Type.Params.List {
 		for _, nm := range f.Names {
-			if i < len(call.Args) && core.ObjOf(x.info, call.Args[i]) == x.entry {
+			if i < len(call.Args) && c07.Obj(x.info, call.Args[i]) == x.entry {
 				param = x.info.Defs[nm]
 			}
 			i++
@@ -83,7 +87,7 @@ func (x *rx) lineHelper(call *ast.CallExpr) bool {
 		if as, ok := n.(*ast.AssignStmt); ok && len(as.Lhs) == 1 && len(as.Rhs) == 1 {
 			if u, ok := ast.Unparen(as.Rhs[0]).(*ast.UnaryExpr); ok && u.Op == token.AND {
 				if cl, ok := ast.Unparen(u.X).(*ast.CompositeLit); ok {
-					y.litOf[core.ObjOf(x.info, as.Lhs[0])] = cl
+					y.litOf[c07.Obj(x.info, as.Lhs[0])] = cl
 				}
 			}
 		}
@@ -100,7 +104,7 @@ func (x *rx) lineHelper(call *ast.CallExpr) bool {
 			}
 			o := types.Object(nil)
 			if b != nil {
-				o = core.ObjOf(x.info, b["_b"].(ast.Expr))
+				o = c07.Obj(x.info, b["_b"].(ast.Expr))
 			}
 			if o == nil || hb != nil && hb != o || !c07.Within(identPos(o), h.Decl.Body) {
 				okRet = false
@@ -109,6 +113,7 @@ func (x *rx) lineHelper(call *ast.CallExpr) bool {
 		}
 		return true
 	})
+	y.msgBufs = map[types.Object]bool{hb: true}
 	emits := y.g.Points(y.isEmit)
 	if !okRet || hb == nil || len(emits) != 1 {
 		return false
@@ -128,7 +133,7 @@ func (x *rx) lineHelper(call *ast.CallExpr) bool {
 	x.c.Functions[h.Name()] = true
 	okOne, w := c07.MustPass(y.g, y.g.Entry(), false, y.isEmit)
 	x.c.Check("R2.one-line", "aux/helper-one-line", h.Decl.Pos(), okOne, "the helper that builds the aux line must write exactly one JSON line on every path, otherwise the script is omitted from the output", w...)
-	y.literal(cl, "", nil, nil, nil)
+	y.literal(cl, "", nil, noElem, nil)
 	return true
 }
 
@@ -137,7 +142,7 @@ func (x *rx) lineHelper(call *ast.CallExpr) bool {
 // parameter; "b64other": uses encoding/base64 otherwise; "json": json.Marshal of its parameter (its error
 // discipline is checked once).
 func (x *rx) kindOf(fun ast.Expr) string {
-	o := core.ObjOf(x.info, fun)
+	o := c07.Obj(x.info, fun)
 	if o == nil {
 		return ""
 	}
@@ -157,7 +162,7 @@ func (x *rx) kindOf(fun ast.Expr) string {
 		core.InspectAll(x.fn.Decl.Body, func(m ast.Node) bool {
 			if as, ok := m.(*ast.AssignStmt); ok {
 				for i, l := range as.Lhs {
-					if core.ObjOf(x.info, l) == o {
+					if c07.Obj(x.info, l) == o {
 						n++
 						target = core.AssignedTo(as, i)
 					}
@@ -175,11 +180,21 @@ func (x *rx) kindOf(fun ast.Expr) string {
 	var body *ast.BlockStmt
 	var root ast.Node
 	var g *cfgq.Graph
+	if sel, ok := ast.Unparen(target).(*ast.SelectorExpr); ok { // a method value: base64.StdEncoding.EncodeToString
+		if mf, isF := c07.Obj(x.info, sel).(*types.Func); isF && pkgFunc(mf, "encoding/base64", "EncodeToString") {
+			kind := "b64other"
+			if x.isStdEnc(sel.X) {
+				kind = "b64"
+			}
+			x.kinds[o] = kind
+			return kind
+		}
+	}
 	switch r := ast.Unparen(target).(type) {
 	case *ast.FuncLit:
 		params, body, root, g = r.Type.Params, r.Body, r, cfgq.OfLit(x.c.Program, x.info, r)
 	default:
-		f, _ := core.ObjOf(x.info, r).(*types.Func)
+		f, _ := c07.Obj(x.info, r).(*types.Func)
 		fn := x.c.FnOf(f)
 		if fn == nil || fn.Decl.Body == nil || fn.Pkg != x.fn.Pkg || fn.Decl.Recv != nil {
 			return ""
@@ -191,12 +206,32 @@ func (x *rx) kindOf(fun ast.Expr) string {
 	}
 	param := x.info.Defs[params.List[0].Names[0]]
 	kind := ""
-	if len(body.List) == 1 {
-		if ret, ok := body.List[0].(*ast.ReturnStmt); ok && len(ret.Results) == 1 {
-			if call, ok := ast.Unparen(ret.Results[0]).(*ast.CallExpr); ok && x.isStdB64(call) && core.ObjOf(x.info, call.Args[0]) == param {
-				kind = "b64"
+	// every return hands back the standard base64 text of the (never re-assigned) parameter
+	nret, okRet := 0, true
+	core.Inspect(body, func(m ast.Node) bool {
+		switch st := m.(type) {
+		case *ast.ReturnStmt:
+			nret++
+			if len(st.Results) != 1 {
+				okRet = false
+			} else if a := x.b64Of(st.Results[0], body); a == nil || c07.Obj(x.info, a) != param {
+				okRet = false
+			}
+		case *ast.AssignStmt:
+			for _, l := range st.Lhs {
+				if c07.Obj(x.info, l) == param {
+					okRet = false
+				}
+			}
+		case *ast.UnaryExpr:
+			if st.Op == token.AND && c07.Obj(x.info, st.X) == param {
+				okRet = false
 			}
 		}
+		return true
+	})
+	if nret > 0 && okRet {
+		kind = "b64"
 	}
 	if kind == "" && len(core.Calls(body, x.info, func(_ *ast.CallExpr, co types.Object) bool {
 		return co != nil && co.Pkg() != nil && co.Pkg().Path() == "encoding/base64"
@@ -205,7 +240,7 @@ func (x *rx) kindOf(fun ast.Expr) string {
 	}
 	for _, call := range core.Calls(body, x.info, func(call *ast.CallExpr, co types.Object) bool {
 		f, _ := co.(*types.Func)
-		return pkgFunc(f, "encoding/json", "Marshal") && len(call.Args) == 1 && core.ObjOf(x.info, call.Args[0]) == param
+		return pkgFunc(f, "encoding/json", "Marshal") && len(call.Args) == 1 && c07.Obj(x.info, call.Args[0]) == param
 	}) {
 		kind = "json"
 		if !x.errCk[root] {
